@@ -14,17 +14,28 @@ def descL : List Xml → List Xml
   | k :: ks => descT k ++ descL ks
 end
 
-/-- the property children of a node (`<w:rPr>` below `<w:r>` …) carry no content -/
+mutual
+/-- no mergeable element (run, text, hyperlink) at or below the node -/
+def noMergeT : Xml → Bool
+  | .elem i p t m a tx tl ks => !isMergeable (.elem i p t m a tx tl ks) && noMergeL ks
+  | _ => true
+def noMergeL : List Xml → Bool
+  | [] => true
+  | k :: ks => noMergeT k && noMergeL ks
+end
+
+/-- the property children of a node (`<w:rPr>` below `<w:r>`, `<w:pPr>` below `<w:p>` …) hold nothing that merges
+(they may hold content tags: the `<w:tab>` elements of tab-stop definitions are content tags) -/
 def prCleanNode (e : Xml) : Bool :=
   match e.tag? with
-  | some t => e.kids.all fun c => !(c.tag? == some ⟨t.ns, t.name ++ lit "Pr"⟩) || !hasContent c
+  | some t => e.kids.all fun c => !(c.tag? == some ⟨t.ns, t.name ++ lit "Pr"⟩) || noMergeT c
   | none => true
 
 /-- one prefix per namespace: every node carries the prefixed tag of the first node with its tag -/
 def prefixOK (d : List Xml) : Bool :=
   d.all fun e => (d.find? fun e' => e'.tag? == e.tag?).map Xml.ptag == some e.ptag
 
-/-- distinct identities, one prefix per namespace, content-free property children -/
+/-- distinct identities, one prefix per namespace, nothing mergeable below property children -/
 def goodTree (x : Xml) : Bool :=
   let d := descL [x]
   decide (d.filterMap Xml.id?).Nodup && prefixOK d && d.all prCleanNode
